@@ -390,5 +390,7 @@ func main() {
 		wsPart(w, r)
 	case "resp":
 		respPart(w, r)
+	case "slowwriter":
+		slowWriterPart(w, r)
 	}
 }
